@@ -92,9 +92,10 @@ class Repo:
                 raise AnalysisError(f"cannot parse {relp}: {e}")
         for m in self.modules.values():
             self._index(m)
-        for m in self.modules.values():
-            for c in m.classes.values():
-                self._infer_attr_types(c)
+        for _ in range(2):
+            for m in self.modules.values():
+                for c in m.classes.values():
+                    self._infer_attr_types(c)
 
     # -- indexing ----------------------------------------------------------------
     def _index(self, m: ModuleInfo):
@@ -155,12 +156,7 @@ class Repo:
     def _infer_attr_types(self, c: ClassInfo):
         """self.x = ClassName(...) / self.x = param (annotated) in any method."""
         for fi in c.methods.values():
-            ann = {}
-            for a in fi.node.args.args + fi.node.args.kwonlyargs:
-                if a.annotation is not None:
-                    t = self._ann_class(fi.module, a.annotation)
-                    if t:
-                        ann[a.arg] = t
+            ann = self.local_types(fi)
             for node in ast.walk(fi.node):
                 if isinstance(node, (ast.Assign, ast.AnnAssign)):
                     targets = node.targets if isinstance(node, ast.Assign) else [node.target]
